@@ -54,6 +54,12 @@ def load_openskill(fresh=False):
     if _openskill is not None and not fresh:
         return _openskill
     _setup_pycache()
+    try:
+        import sched
+
+        sched.install_lock_seam()
+    except ImportError:
+        pass
     if REPO in sys.path:
         sys.path.remove(REPO)
     sys.path.insert(0, REPO)
